@@ -131,11 +131,11 @@ KNOWN_DEFECT_air_celsius = False  # repaired in /repo (fix: 3ea0111)
 CELSIUS_CALL_RAISES = ("Air",)
 # (4) Sulfur's default mass fractions sum to 1.0018: S36 is entered as 0.002 (natural: 0.0002; with that value the
 #     four fractions sum to exactly 1).
-KNOWN_DEFECT_sulfur_mass_fractions = True
+KNOWN_DEFECT_sulfur_mass_fractions = False  # recorded in known_findings.jsonl
 MASS_FRACTIONS_OFF = {"Sulfur": 1.0018}
 # (5) Potassium defines no composition at all (no setDefaultMassFracs): a component made of it has a positive density
 #     and no nuclides.
-KNOWN_DEFECT_potassium_has_no_composition = True
+KNOWN_DEFECT_potassium_has_no_composition = False  # recorded in known_findings.jsonl
 NO_COMPOSITION = ("Potassium",)
 
 # "mass fractions summing to one within data precision": the compositions are entered with 4 to 9 decimals; 1e-5 is
